@@ -20,7 +20,7 @@ MENU = ["holidays_fr", "holidays_us", "country_from_coords", "tz_from_coords", "
 
 def run_skeleton(skel, jitter):
     p = subprocess.run([vlib.BIN, "threads", "--skeleton", json.dumps(skel), "--jitter", str(jitter)], stdout=subprocess.PIPE,
-                       stderr=subprocess.PIPE, text=True, timeout=300, env=vlib.clean_env(), cwd=vlib.WORK)
+                       stderr=subprocess.PIPE, text=True, timeout=900, env=vlib.clean_env(), cwd=vlib.WORK)
     if p.returncode != 0:
         # a crash of the process under test is data: no event explains it
         return [{"thread": 0, "seq": 0, "call": skel[0][0], "consistent": False,
